@@ -324,6 +324,10 @@ def run(rep):
             C05.rule_rebase(rep, t, m)
             C05.rule_preroll(rep, t, m)
         rep.guarded("R-C05-shift", carry)
+    # ... and for the three FFT types: every block is transformed exactly once, in order, from exactly the frames accounted for
+    import fftmodel
+    rep.guarded("R-C05-fft", fftmodel.rule_conserve, "R-C05-fft")
+    rep.floor("R-C05-fft", 6 + 7)
     rep.floor("R-C01-poly", 1 + 9 + 6)
     rep.floor("R-C01-nodes", 4 + 8)
     rep.floor("R-C01-grid", 7)
@@ -341,6 +345,7 @@ def run(rep):
     rep.clause("R-C01-cutoff-lower", "the cutoff handed to the kernels is not lower than f_cutoff·min(1, ratio)")
     rep.clause("R-C01-ola", "FFT unit: zero-padded 2N transforms, filter scaled by 1/(2·fft_size_in), bins [0,new_len) filtered, output = first half + saved overlap, new overlap = second half")
     rep.clause("R-C05-shift / -rebase / -preroll", "the history carried between chunks is the data loaded last and the position is rebased by it (shared with C05): the stream does not depend on the chunking")
+    rep.clause("R-C05-fft", "FFT adapters: the blocks handed to the overlap-add unit are exactly the frames accounted as consumed, each once and in order, saved frames carried (shared with C05)")
     rep.clause("R-C15-lanes", "the dot-product kernels add every product exactly once (shared with C15)")
     rep.not_decided += ["amplitude within 1 % / 0.1 %, stop-band leakage and interpolation-error bounds, window shapes beyond their defining formulas, f32 accuracy, calculate_cutoff's fitted constants: numerical analysis of a filter, not shape of code"]
     rep.trusted += ["syn parser", "sympy", "realfft transforms are unnormalised DFTs"]
